@@ -105,7 +105,10 @@ fn owning_adversarial<const N: usize, const B: usize>(ctx: &mut Ctx, flags: u8, 
         hal::dev_write_u16(a.dev + 2, dev.used).unwrap();
         let polls = 1 + ctx.rng.below(2);
         for _ in 0..polls {
-            let r = { let oq = &mut oq; let t = &mut t; catch_unwind(AssertUnwindSafe(move || oq.poll(t, |b| Ok(Some(b.len()))))) };
+            // the handler rejects what the device wrote in a third of the polls (a malformed packet / event)
+            let reject = ctx.rng.chance(1, 3);
+            if reject { ctx.tr.note("owning_adv_handler_rejects"); }
+            let r = { let oq = &mut oq; let t = &mut t; catch_unwind(AssertUnwindSafe(move || oq.poll(t, |b| if reject { Err(virtio_drivers::Error::IoError) } else { Ok(Some(b.len())) }))) };
             let (class, len_ok) = match &r { Ok(Ok(Some(l))) => (0usize, *l <= B), Ok(Ok(None)) => (0, true), Ok(Err(_)) => (1, true), Err(_) => (2, true) };
             classes[class] += 1;
             // kind 160: [class; delivered length within the buffer; ledger violations so far]
